@@ -42,7 +42,11 @@ def inspect_recursive(value: Any, seen_values: list) -> str:
     if value is None or value is Undefined or isinstance(value, (bool, float, complex)):
         return repr(value)
     if isinstance(value, (int, str, bytes, bytearray)):
-        return trunc_str(repr(value))
+        try:
+            return trunc_str(repr(value))
+        except ValueError:
+            # an integer beyond the interpreter's limit for decimal string conversion
+            return trunc_str(hex(value))  # type: ignore[arg-type]
     if len(seen_values) < max_recursive_depth and value not in seen_values:
         # check if we have a custom inspect method
         inspect_method = getattr(value, "__inspect__", None)
